@@ -1,9 +1,10 @@
-(* Props/C06.v -- property C06: uplink frame counters never repeat within a session (MAC-core part).
-   The MAC hands every uplink the current counter and moves it only by +1 on rx2_complete / an accepted downlink,
-   reporting SessionExpired instead of wrapping.  That every uplink IS closed by one of the two before the next
-   send is a front-end obligation, exercised by the fault-injection histories of the check (partial: see DESIGN). *)
+(* Props/C06.v -- property C06: uplink frame counters never repeat within a session.
+   MAC core: every uplink gets the current counter, which moves only by +1 on rx2_complete / an accepted downlink, with
+   SessionExpired instead of wrapping.  Asynchronous front-end (Model/AsyncDev.v, tied to async_device/mod.rs by the correspondence
+   run): every send that returns has concluded its uplink, whatever the radio did; counters of successive uplinks of a session
+   strictly increase.  The non-blocking front-end (nb_device) is covered by fault-position enumeration only (partial: see DESIGN). *)
 From Coq Require Import NArith ZArith List Bool.
-From LoraV Require Import Base.Bytes Model.Frame Model.Region Model.Mac Proofs.SessionProofs.
+From LoraV Require Import Base.Bytes Model.Frame Model.Region Model.Mac Model.AsyncDev Proofs.SessionProofs Proofs.AsyncProofs.
 Import ListNotations.
 Local Open Scope N_scope.
 
@@ -28,4 +29,31 @@ Section C06.
     handle_rx_session enc mac_fn s cf rg bytes maxp snr ignore_mac = Val o ->
     ss_fcnt_up s <= ss_fcnt_up (ro_session o) <= ss_fcnt_up s + 1.
   Proof. exact (handle_rx_counter_monotone enc mac_fn). Qed.
+
+  (* async_device::Device::send, for EVERY radio behaviour (script of timeouts / errors / frames / pending receptions, a fault at any
+     radio call, Class C or not): when send returns -- with a value or with an error -- the uplink it built from counter c has been
+     concluded: the session (same keys) has a larger uplink counter, or the device answers SessionExpired with the counter space
+     exhausted *)
+  Theorem C06_async_send_concludes_the_uplink : forall d e data fport confirmed draws d' e' res s,
+    adev_send enc mac_fn d e data fport confirmed draws = (d', e', res) -> m_state (ad_mac d) = Joined s ->
+    res <> APanic -> res <> AHang -> res <> AParked ->
+    exists o s', send enc mac_fn (ad_mac d) data fport confirmed draws = Val (SendOk o) /\ to_counter o = ss_fcnt_up s /\
+      m_state (ad_mac d') = Joined s' /\ keys_eq s s' /\
+      (ss_fcnt_up s < ss_fcnt_up s' \/ (res = AOk RSessionExpired /\ ss_fcnt_up s = 0xFFFFFFFF /\ ss_fcnt_up s' = ss_fcnt_up s)).
+  Proof. exact (adev_send_concludes enc mac_fn). Qed.
+
+  (* hence: whatever happens between two sends of one session (further sends, Class C listening with any receptions, data-rate and
+     ADR changes), the second frame is built from a strictly larger counter -- until session expiry has been reported *)
+  Theorem C06_async_counters_strictly_increase : forall d e data fport confirmed draws d1 e1 r1 s o1 d2 data2 fport2 confirmed2 draws2 o2,
+    m_state (ad_mac d) = Joined s ->
+    adev_send enc mac_fn d e data fport confirmed draws = (d1, e1, r1) -> r1 <> APanic -> r1 <> AHang -> r1 <> AParked -> r1 <> AOk RSessionExpired ->
+    send enc mac_fn (ad_mac d) data fport confirmed draws = Val (SendOk o1) ->
+    same_session enc mac_fn d1 d2 ->
+    send enc mac_fn (ad_mac d2) data2 fport2 confirmed2 draws2 = Val (SendOk o2) ->
+    to_counter o1 < to_counter o2.
+  Proof. exact (async_counters_strictly_increase enc mac_fn). Qed.
+
+  (* no operation of the front-end on an established session changes its keys or moves the counter backwards *)
+  Theorem C06_async_never_rewinds : forall d d', same_session enc mac_fn d d' -> frel d d'.
+  Proof. exact (same_session_frel enc mac_fn). Qed.
 End C06.
